@@ -11,6 +11,7 @@ package main
 
 import (
 	"fmt"
+	"os"
 	"runtime"
 	"strings"
 	"sync"
@@ -245,9 +246,12 @@ func plans(thorough bool) []worldPlan {
 		}
 		ps = append(ps, worldPlan{cfg, d})
 	}
-	commonLen, chanLen, depth := 3, 2, 5
+	commonLen, chanLen, depth := 3, 3, 6
 	if thorough {
-		commonLen, chanLen, depth = 4, 3, 6
+		commonLen, chanLen, depth = 4, 3, 8
+	}
+	if v := os.Getenv("VERIF_C03_BOUNDS"); v != "" { // experiments: "common,chan,depth"
+		fmt.Sscanf(v, "%d,%d,%d", &commonLen, &chanLen, &depth)
 	}
 	for _, log := range seqs([]string{"msg", "del", "enc"}, 1, commonLen) {
 		for _, sl := range []int{0, 1, 2} {
